@@ -61,13 +61,15 @@ FW = {"T": ({0xC3: b"\x02", 0xC1: b"\x00"}, b"main-firmware-image-bytes-01"),
 BAD_CFG = {"too-long": {(0x0100, 0x01): bytes(256)}, "key-range": {(0x10000, 0x01): b"\x01"}}
 OPS = ([("setcfg", c) for c in "ABCDE"] + [("setcfg-refused", c) for c in sorted(BAD_CFG)] + [("comments", c) for c in "ABCDE"]
        + [("auth", c, m) for c in "ABCDE" for m in ("cust", "ecc")]
-       + [("fw", where, k) for where in ("append", "insert") for k in "TN"] + [("writeread",)])
+       + [("fw", where, k) for where in ("append", "insert") for k in "TN"] + [("writeread",), ("writeread", "partial")])
 
 
 class St:
     def __init__(self):
         # both files are created the way the appnotes do - without a comments argument; the second one is never touched
-        self.bec = Bec2File(Bf3File(components=[Bf3Component(dict(FW["T"][0]), FW["T"][1])]), session_key=KEY)
+        # (default-constructed and filled afterwards: a default argument shared between objects would show in `other`)
+        self.bec = Bec2File(Bf3File(), session_key=KEY)
+        self.bec.bf3file.components.append(Bf3Component(dict(FW["T"][0]), FW["T"][1]))
         self.bec.bf3file.comments["FirmwareId"] = "1053"
         self.other = Bec2File(Bf3File(), session_key=KEY)
         # reference state
@@ -222,11 +224,23 @@ def step(st, op):
             bec.write_file(s, encs)
         st.counter = rnd.counter
         s.seek(0)
-        r = Bec2File.read_file(s, encs + [ConfigSecurityCodeEncryptor(c) for c in codes])
+        partial = len(op) > 1
+        if partial and not codes:
+            return None
+        # 'partial': read back WITHOUT the security-code decryptor - the update block stays unopened (kept as it is)
+        r = Bec2File.read_file(s, encs + ([] if partial else [ConfigSecurityCodeEncryptor(c) for c in codes]))
         if r.session_key != bec.session_key:
             o.viol("writeread|session-key", "session key changed by write/read")
-        if any(isinstance(b, UnknownAuthBlock) for b in r.auth_blocks.values()) or list(r.auth_blocks) != list(bec.auth_blocks):
-            o.viol("writeread|blocks", "auth blocks changed by write/read: %r" % (r.auth_blocks,))
+        if partial:
+            tags_now = [b.tag for b in r.auth_blocks.values()]
+            if sorted(tags_now) != sorted(b.tag for b in bec.auth_blocks.values()) or list(r.auth_blocks.keys()) != tags_now:
+                o.viol("writeread|blocks", "auth blocks after a partial read: keys %r, tags %r" % (list(r.auth_blocks.keys()), tags_now))
+        else:
+            # blocks that were already unopened (after an earlier partial read) stay unopened; all others come back opened
+            unk_before = sorted(t for t, b in bec.auth_blocks.items() if isinstance(b, UnknownAuthBlock))
+            unk_after = sorted(t for t, b in r.auth_blocks.items() if isinstance(b, UnknownAuthBlock))
+            if unk_after != unk_before or list(r.auth_blocks) != list(bec.auth_blocks):
+                o.viol("writeread|blocks", "auth blocks changed by write/read: %r" % (r.auth_blocks,))
         st.bec = r
         st.prov = "read"
         check_components(st, o, what)
